@@ -3,5 +3,5 @@ package main
 import . "zharness/hz"
 
 func main() {
-	Main(map[string]Runner{"pow": runPow, "plasma": runPlasma})
+	Main(map[string]Runner{"pow": runPow, "plasma": runPlasma, "methods": runMethods})
 }
